@@ -412,3 +412,24 @@ def real_case(rng, repo, n_trains=2, max_spikes=40):
             s = s[k:k + max_spikes]
         trains.append(list(s))
     return {"ts": 0.0, "te": 4000.0, "step": 250.0, "dyadic": False, "trains": trains}
+
+
+# ----------------------------------------------------------------------------------------- W13 long trains
+def long_pair(rng):
+    """one long train (130..300 spikes, so that any 'only for long inputs' fast path is entered) against a short one;
+    the long train often starts late / ends early so that the other train has spikes outside its span"""
+    ts = rng.choice([0.0, -4.0, 16.0])
+    T = rng.choice([64.0, 512.0])
+    te = ts + T
+    grid = 1024
+    n = rng.randint(130, 300)
+    lo = rng.choice([1, 1, grid // 4, grid // 2])
+    hi = rng.choice([grid - 1, grid - 1, 3 * grid // 4 + 100])
+    ks = sorted(rng.sample(range(lo, hi), min(n, hi - lo)))
+    long_ = [ts + k * T / grid for k in ks]
+    m = rng.choice([1, 2, 3, 5, 8])
+    short = sorted(ts + k * T / grid for k in rng.sample(range(0, grid + 1), m))
+    if rng.random() < 0.3 and long_:
+        short = sorted(set(short) | {rng.choice(long_)})
+    trains = [long_, short] if rng.random() < 0.5 else [short, long_]
+    return {"ts": ts, "te": te, "step": T / grid, "dyadic": True, "trains": trains}
